@@ -4,6 +4,7 @@ use crate::engine::*;
 
 pub mod c01;
 pub mod c02;
+pub mod c03;
 pub mod c04;
 pub mod c05;
 pub mod c07;
@@ -23,6 +24,7 @@ pub fn registry(id: &str) -> Option<(&'static str, fn(&mut Ctx), ReplayFn)> {
     Some(match id {
         "C01" => ("C01", c01::run, c01::replay),
         "C02" => ("C02", c02::run, c02::replay),
+        "C03" => ("C03", c03::run, c03::replay),
         "C04" => ("C04", c04::run, c04::replay),
         "C05" => ("C05", c05::run, c05::replay),
         "C07" => ("C07", c07::run, c07::replay),
@@ -39,7 +41,7 @@ pub fn registry(id: &str) -> Option<(&'static str, fn(&mut Ctx), ReplayFn)> {
     })
 }
 
-pub const ALL_IDS: &[&str] = &["C01", "C02", "C04", "C05", "C07", "C11", "C12", "C13", "C14", "C16", "C17", "C18", "C19", "C20"];
+pub const ALL_IDS: &[&str] = &["C01", "C02", "C03", "C04", "C05", "C07", "C11", "C12", "C13", "C14", "C16", "C17", "C18", "C19", "C20"];
 
 /// E4: replay every committed reproduction of this property.
 /// A file that matches an *open* known finding prints its KNOWN-FINDING line;
